@@ -208,6 +208,27 @@ def outcomes_of(res):
     return [e for e in res.events if e["who"] == "client" and e["ev"] == "confirmation"]
 
 
+def residue(res, report, suffix=""):
+    """residue on the requesting stack (and, at the horizon, anywhere)"""
+    cfg = res.cfg
+    live = transaction_census()
+    if live:
+        roles = sorted("%s:%s" % (type(x).__name__, _as.SSM.transactionLabels[x.state]) for x in live)
+        report("transaction-left-after-outcome/" + roles[0] + suffix, {"live": roles, "listed_client": len(res.client.smap.clientTransactions),
+                                                                      "listed_server": len(res.server.smap.serverTransactions),
+                                                                      "error": repr(res.submit_error)[:100] if suffix else None})
+    timers = heap_transaction_timers()
+    if timers:
+        report("transaction-timer-left-in-scheduler" + suffix, {"n": len(timers)})
+    if CLOCK.tm.tasks and not timers:
+        report("scheduler-not-idle-after-transaction" + suffix, {"tasks": [type(t[2]).__name__ for t in CLOCK.tm.tasks][:4]})
+    if cfg.path == "iocb" and res.client.app.queue_by_address:
+        report("iocb-queue-entry-left" + suffix, {"queues": [str(k) for k in res.client.app.queue_by_address]})
+    if res.client.smap.clientTransactions or res.server.smap.serverTransactions or res.client.smap.serverTransactions:
+        report("transaction-list-not-empty" + suffix, {"client": len(res.client.smap.clientTransactions),
+                                                       "server": len(res.server.smap.serverTransactions)})
+
+
 def check_c04(res, report):
     """report(key, detail) for every refuting observation"""
     cfg = res.cfg
@@ -225,6 +246,8 @@ def check_c04(res, report):
             report("submission-refused-and-outcome-delivered", {"error": repr(res.submit_error)})
             return
         else:
+            # the refusal was the outcome: nothing of the request may stay behind either
+            residue(res, report, "/after-refused-submission")
             return
     if len(outs) < expected:
         key = "no-outcome-delivered" if expected == 1 else "queued-request-without-outcome" if cfg.path == "iocb" else "concurrent-request-without-outcome"
@@ -259,22 +282,7 @@ def check_c04(res, report):
         confs = [e for e in res.events if e["who"] == "client" and e["ev"] == "confirmation"]
         if len(confs) > expected:
             report("confirmation-delivered-more-than-once", {"n": len(confs), "requests": expected})
-    # residue on the requesting stack (and, at the horizon, anywhere)
-    live = transaction_census()
-    if live:
-        roles = sorted("%s:%s" % (type(x).__name__, _as.SSM.transactionLabels[x.state]) for x in live)
-        report("transaction-left-after-outcome/" + roles[0], {"live": roles, "listed_client": len(res.client.smap.clientTransactions),
-                                                             "listed_server": len(res.server.smap.serverTransactions)})
-    timers = heap_transaction_timers()
-    if timers:
-        report("transaction-timer-left-in-scheduler", {"n": len(timers)})
-    if CLOCK.tm.tasks and not timers:
-        report("scheduler-not-idle-after-transaction", {"tasks": [type(t[2]).__name__ for t in CLOCK.tm.tasks][:4]})
-    if cfg.path == "iocb" and res.client.app.queue_by_address:
-        report("iocb-queue-entry-left", {"queues": [str(k) for k in res.client.app.queue_by_address]})
-    if res.client.smap.clientTransactions or res.server.smap.serverTransactions or res.client.smap.serverTransactions:
-        report("transaction-list-not-empty", {"client": len(res.client.smap.clientTransactions),
-                                              "server": len(res.server.smap.serverTransactions)})
+    residue(res, report)
     # no further packets from the requester for this transaction after its outcome
     late = []
     for rec in res.lan.frames[res.lan.frames_before:]:
